@@ -44,10 +44,10 @@ let find_handler prop = reg prop "Find" (fun ver args obs ->
     let spec =
       if (prop <> "C15" && prop <> "C06") || spec <> None then spec
       else (match extra with
-        | [c] when kind = 1 && ver = "v3" && fn = 1 && (match n with Zpos _ -> false | _ -> true) ->
+        | [c] when kind = 1 && ver = "v3" && (fn = 1 || fn = 4) && (match n with Zpos _ -> false | _ -> true) ->
           (* the zero-demand clause holds on every kind of sequence: only the constructor's first-digit probe *)
           let calls = int_of_string c in
-          if calls <> 1 then Some (Printf.sprintf "FindFirstN with n <= 0 consulted %d positions (v3 must consult nothing)" calls) else None
+          if calls <> 1 then Some (Printf.sprintf "%s with n <= 0 consulted %d positions (v3 must consult nothing)" (if fn = 1 then "FindFirstN" else "FindLastN") calls) else None
         | [c] when kind = 1 && rep <> [] && List.mem fn [0; 1; 5; 7; 9] ->
           let calls = int_of_string c in
           let ints = List.map clamp_int_of_z res in
